@@ -55,7 +55,7 @@ func (Prop) Assumptions() []string {
 
 var writeKinds = []string{
 	"create", "create", "create_slice", "create_slice", "create_ptr_slice", "create_ptr_slice", "create_batches",
-	"create_memo", "save_memo", "create_lang", "create_langs", "create_toy", "update_toy", "create_account", "update_account", "update_lang", "save", "save", "save_slice", "update", "updates_struct", "updates_ptr", "updates_ptr", "updates_map", "updates_self", "update_column", "update_columns",
+	"create_memo", "save_memo", "update_memo", "create_lang", "create_langs", "create_toy", "update_toy", "create_account", "update_account", "delete_toy", "delete_account", "delete_lang", "update_company", "delete_company", "update_pet", "update_lang", "save", "save", "save_slice", "update", "updates_struct", "updates_ptr", "updates_ptr", "updates_map", "updates_self", "update_column", "update_columns",
 	"delete", "delete_select", "delete_slice", "delete_pet",
 }
 
@@ -63,7 +63,7 @@ func (Prop) Gen(r *core.Rand, tier string) interface{} {
 	c := &Case{Prepare: r.Chance(25), ExplicitTx: r.Chance(25), HookSets: r.Chance(40), HookWrites: r.Chance(30), Pick: r.Int63()}
 	if r.Chance(75) {
 		w := ops.GenWOp(r, writeKinds)
-		if w.Kind == "create_slice" || w.Kind == "create_ptr_slice" {
+		if (w.Kind == "create_slice" || w.Kind == "create_ptr_slice") && !w.RootFriend {
 			// lengths 0..5
 			g := fam.NewGen(r)
 			w.Users = nil
@@ -240,6 +240,17 @@ var (
 	patFind   = "AfterFind"
 )
 
+// afterFindTables: the tables whose model defines AfterFind.
+func afterFindTables() map[string]bool {
+	out := map[string]bool{}
+	for _, m := range []string{"User", "Company", "Account", "Pet", "Toy", "Language"} {
+		if !fam.NoHook[m]["AfterFind"] {
+			out[fam.TableOf[m]] = true
+		}
+	}
+	return out
+}
+
 func phase(h string) string {
 	switch h {
 	case "BeforeSave", "BeforeCreate", "BeforeUpdate":
@@ -329,6 +340,9 @@ func (p Prop) checkClean(c *Case, x *execInfo) (string, string, string) {
 		if c.R != nil && c.R.Kind == "find_in_batches" {
 			ok = true // the caller's batch slice is reused: one address holds a different record in every batch
 		}
+		if model == "Memo" {
+			ok = true // value-receiver hooks run on copies: no record identity; counted per operation below
+		}
 		if !ok {
 			role := "internal"
 			if known && n.Root {
@@ -394,6 +408,9 @@ func (p Prop) checkClean(c *Case, x *execInfo) (string, string, string) {
 	if mp, ok := map[string][2]string{
 		"create_toy": {"Toy", patCreate}, "update_toy": {"Toy", patUpdate},
 		"create_account": {"Account", patCreate}, "update_account": {"Account", patUpdate},
+		"delete_toy": {"Toy", patDelete}, "delete_account": {"Account", patDelete},
+		"delete_lang": {"Language", patDelete}, "update_company": {"Company", patUpdate}, "delete_company": {"Company", patDelete},
+		"update_pet":  {"Pet", patUpdate},
 		"create_lang": {"Language", patCreate}, "update_lang": {"Language", patUpdate},
 	}[k]; ok && (sr.Res.RowsAffected > 0 || strings.HasPrefix(k, "create")) {
 		want := fam.HookPattern(mp[0], mp[1])
@@ -408,15 +425,17 @@ func (p Prop) checkClean(c *Case, x *execInfo) (string, string, string) {
 		}
 	}
 	// a value-receiver hook has no record identity: count it per operation
-	if k == "create_memo" || k == "save_memo" {
-		n := 0
-		for _, h := range sr.Hooks {
-			if h.Model == "Memo" && h.Hook == "BeforeSave" {
-				n++
+	if k == "create_memo" || k == "save_memo" || k == "update_memo" {
+		for _, hook := range []string{"BeforeSave", "AfterSave"} {
+			n := 0
+			for _, h := range sr.Hooks {
+				if h.Model == "Memo" && h.Hook == hook {
+					n++
+				}
 			}
-		}
-		if n != 1 {
-			return "hook_sequence", k + "|Memo.BeforeSave|count", fmt.Sprintf("one Memo was saved, its BeforeSave (value receiver) ran %d times", n)
+			if n != 1 {
+				return "hook_sequence", k + "|Memo." + hook + "|count", fmt.Sprintf("one Memo was saved, its %s (value receiver) ran %d times", hook, n)
+			}
 		}
 	}
 	// the operation's own transaction
@@ -484,6 +503,9 @@ func (p Prop) checkClean(c *Case, x *execInfo) (string, string, string) {
 					}
 				}
 				for _, tbl := range []string{"companies", "users"} {
+					if !afterFindTables()[tbl] {
+						continue
+					}
 					want := joined[tbl]
 					if tbl == "users" {
 						want += delivered["users"]
@@ -495,7 +517,7 @@ func (p Prop) checkClean(c *Case, x *execInfo) (string, string, string) {
 			}
 		}
 		for tbl, n := range delivered {
-			if _, hooked := map[string]bool{"users": true, "companies": true, "accounts": true, "pets": true, "toys": true, "languages": true}[tbl]; hooked && found[tbl] != n {
+			if hooked := afterFindTables()[tbl]; hooked && found[tbl] != n {
 				return "hook_missing", k + "|afterfind|" + tbl, fmt.Sprintf("%d rows of %s were loaded but AfterFind fired %d times", n, tbl, found[tbl])
 			}
 		}
